@@ -121,9 +121,10 @@ for _p, _m in NEAR.items():
 MIXED["summix"] = [("3", "3"), ("20", "20"), ("1.5", "1.5"), ("-4", "-4"), ("'fig'", "'fig'"), ("//k//", "//k//"),
                    ("date('20240101')", "20240101000000"), ("TRUE", "TRUE"), ("NULL", "NULL")]
 SUM_TYPES = {"string": "'fig'", "pattern": "//k//", "date": "20240101000000", "boolean": "TRUE", "null": "NULL"}
-# decimals of very different magnitude: their sum depends on the order of the additions
-MIXED["decmag"] = [(x, x) for x in ("10000000000000000.0", "1.0", "-10000000000000000.0", "3.0", "0.1", "0.001",
-                                    "123456789.125")]
+# decimals of very different magnitude: their sum depends on the order of the additions.  The hash of a number does not
+# follow the hash seed; most of these fall into the same slot of a small host set, so that the internal order follows the
+# construction order
+MIXED["decmag"] = [(x, x) for x in ("10000000000000000.0", "-10000000000000000.0", "32.0", "64.0", "0.5", "3.0", "0.1")]
 assert all(len(v) <= 10 for v in MIXED.values())
 
 
@@ -152,6 +153,11 @@ ALIKE = {
                "single": True},
 }
 assert ALIKE_BASE + 8 < 100
+
+
+def map_key(lit):
+    """a bare word in front of => is the string of that name in a map literal (also NULL): write it as an expression"""
+    return f"[{lit}][0]" if re.fullmatch(r"[A-Za-z_]\w*", lit) and lit not in ("TRUE", "FALSE") else lit
 
 
 # ---------------------------------------------------------------- templates
@@ -276,12 +282,6 @@ def templates():
     a(T("spread-call-map-stacktrace",
         "def g(apple = '', cherry = '', fig = '', kiwi = '', lemon = '', mango = '', peach = '', quince = '') "
         "error 'boom';\ng(...M);", None, solo=True))
-    # uncaught errors below calls that were handed a set / a map: the stack-trace lines show the arguments
-    # (abbreviated when long: Args.toStringAbbrev)
-    a(T("trace-set-arg", "def g(s) error 'boom';\ng(S);", "trace.set.all", "trace.set", n=3, solo=True))
-    a(T("trace-map-arg", "def g(m) error 'boom';\ng(M);", None, "trace.map", n=3, solo=True))
-    a(T("trace-args-nested", "def g3(s, m, rest...) sum(s);\ndef g2(s, m) g3(s, m, s, [m], <<s>>);\n"
-        "def g1(s) do def r = g2(s, M); return r; end;\ng1(S);", None, "trace.set", solo=True))
     a(T("destr-def-more", "def [a, b, c, d, e, u, v, w, z] = S; println([a, b, c, d, e, u, v, w, z]);",
         "destr.def.set.all", "destr.def.set"))
     # ---- rendering
@@ -503,7 +503,7 @@ class Batch:
         else:
             pool = MIXED[self.pool]
             lines.append("def S = <<" + ", ".join(pool[r][0] for r in order) + ">>;")
-            lines.append("def M = <<<" + ", ".join(f"{pool[r][0]} => '{self.words[r]}'" for r in order) + ">>>;")
+            lines.append("def M = <<<" + ", ".join(f"{map_key(pool[r][0])} => '{self.words[r]}'" for r in order) + ">>>;")
         return "\n".join(lines) + "\n"
 
     def script(self, order):
@@ -593,7 +593,8 @@ def mixed_ranks(pool):
     try:
         lt = [[bool(it.interpret(f"{lits[i]} < {lits[j]}", "c12").value) for j in range(n)] for i in range(n)]
         eq = [[bool(it.interpret(f"{lits[i]} == {lits[j]}", "c12").value) for j in range(n)] for i in range(n)]
-        shown = [str(it.interpret(f"[{lits[i]}]", "c12"))[1:-1] == MIXED[pool][i][1] for i in range(n)]
+        shown = [str(it.interpret(f"[{lits[i]}]", "c12"))[1:-1] in (MIXED[pool][i][1], "'" + MIXED[pool][i][1] + "'")
+                 for i in range(n)]
     except Exception as e:          # the order cannot even be asked: no ranks, the runs are still compared with each other
         _WHY[pool] = f"asking the interpreter failed: {type(e).__name__}"
         _TOTAL[pool] = None
@@ -654,6 +655,11 @@ def make_batch(bid, ts, pool, rng, norders, n=None):
     pl = MIXED[pool]
     ranks = mixed_ranks(pool)
     base = list(range(len(pl)))                       # indices into the pool
+    if n and n < len(base):                           # a subset (call channel: 6 members keep permutations() small)
+        if pool == "summix":                          # two numbers, four members sum() cannot digest
+            base = sorted(rng.sample(base[:4], 2) + rng.sample(base[4:], n - 2))
+        else:
+            base = sorted(rng.sample(base, n))
     band = NEAR_BASE if pool in NEAR else 0           # near-duplicates are the elements above OrderOps!NearBase
     elem = {i: band + (ranks[i] if ranks else i + 1) for i in base}
     tokens = {pl[i][1]: elem[i] for i in base}
@@ -1013,6 +1019,7 @@ def directed_calls(pool):
             ("d:join", "String->join([string(x) for x in S], '/')", None, None),
             ("d:min-max", "[min(S), max(S)]", None, None),
             ("d:compare-all", "[compare(a, b) for a in S for b in S]", None, None),
+            ("d:trace-set-long", "do def g(s, m) error 'boom'; g(S, M); end", None, None),
         ]
     if pool == "decmag":
         return [
@@ -1030,6 +1037,14 @@ def directed_calls(pool):
             ("d:running", "do def t = 0.0; for x in S do t += x; end; t; end", None, None),
         ]
     out = [
+        # errors below calls that were handed a set / a map: the stack-trace lines show the arguments, abbreviated
+        # when long (Args.toStringAbbrev); T3 is a set of three members (shown in full)
+        ("d:trace-set", "do def g(s) error 'boom'; g(T3); end", "trace.set.all", "trace3"),
+        ("d:trace-set-long", "do def g(s, n) error 'boom'; g(S, 1); end", None, None),
+        ("d:trace-map", "do def g(m) error 'boom'; g(M); end", None, None),
+        ("d:trace-nested", "do def g3(s, m, rest...) sum(s); def g2(s, m) g3(s, m, s, [m], <<s>>); "
+                           "def g1(s) do def r = g2(s, M); return r; end; g1(S); end", None, None),
+        ("d:trace-method", "do def o = <*g = fn(self, s, m = NULL) error s*>; o->g(S, m = M); end", None, None),
         ("d:reduce-set", "List->reduce(S, fn(a, b) a + '/' + b)", None, None),
         ("d:reduce-values", "List->reduce(list(M), fn(a, b) b + '/' + a)", None, None),
         ("d:string-concat", "do def t = ''; for x in S do t += x; end; t; end", None, None),
@@ -1048,6 +1063,8 @@ def directed_calls(pool):
 def call_prelude(b, order):
     lines = ["require " + "; require ".join(calls_mod.MODULES) + ";"]
     if b.pool == "str":
+        t3 = set(sorted(b.elems)[1:4])
+        lines.append("def mkT() <<" + ", ".join(f"'{KEYW[r - 1]}'" for r in order if r in t3) + ">>;")
         lines.append("def mkS() <<" + ", ".join(f"'{KEYW[r - 1]}'" for r in order) + ">>;")
         lines.append("def mkM() <<<" + ", ".join(f"'{KEYW[r - 1]}' => '{VALW[val_of(r) - 101]}'" for r in order) + ">>>;")
     else:
@@ -1057,11 +1074,12 @@ def call_prelude(b, order):
             n = len(pool)
             lines.append("def mkM() <<<" + ", ".join(f"{pool[r][0]} => {pool[n - 1 - r][0]}" for r in order) + ">>>;")
         else:
-            lines.append("def mkM() <<<" + ", ".join(f"{pool[r][0]} => '{b.words[r]}'" for r in order) + ">>>;")
+            lines.append("def mkM() <<<" + ", ".join(f"{map_key(pool[r][0])} => '{b.words[r]}'" for r in order) + ">>>;")
     return "\n".join(lines) + "\n"
 
 
 CALL_FRESH = "def S = mkS(); def M = mkM(); Random->set_seed(1);\n"
+CALL_FRESH_STR = "def S = mkS(); def M = mkM(); def T3 = mkT(); Random->set_seed(1);\n"
 
 
 def call_groups(rng, quick, funcs):
@@ -1070,21 +1088,22 @@ def call_groups(rng, quick, funcs):
     other orders and the legacy mode on a few."""
     groups = []
     for pool in CALL_POOLS:
-        b = make_batch("calls-" + pool, [], pool, rng, 3 if quick else 6, n=6 if pool == "str" else None)
-        sweep = calls_mod.sweep_calls(funcs, max_args=1 if pool == "decmag" else 3)
+        b = make_batch("calls-" + pool, [], pool, rng, 3 if quick else 6, n=6)
+        sweep = calls_mod.sweep_calls(funcs, max_args={"str": 3, "summix": 2, "decmag": 1}[pool])
         directed = directed_calls(pool)
         cl = [(cid, src) for cid, src, _ in sweep] + [(cid, src) for cid, src, _, _ in directed]
         names = [on for on, _ in b.orders]
         if quick:
             runs = [(names[0], sd, False) for sd in range(8)]
             runs += [(on, 2 + 3 * i, False) for i, on in enumerate(names[1:])]
-            runs += [(names[0], 1, True), (names[1], 6, True)]
+            runs += [(names[0], 1, True), (names[1], 6, True)] if pool == "str" else [(names[1], 6, True)]
         else:
             runs = [(names[0], sd, False) for sd in range(32)]
             runs += [(on, 4 * i + j, False) for i, on in enumerate(names[1:]) for j in range(4)]
             runs += [(on, sd, True) for on in names[:2] for sd in range(4)]
         groups.append({"gid": "calls-" + pool, "pool": pool, "batch": b,
-                       "prelude": {on: call_prelude(b, o) for on, o in b.orders}, "fresh": CALL_FRESH, "calls": cl,
+                       "prelude": {on: call_prelude(b, o) for on, o in b.orders},
+                       "fresh": CALL_FRESH_STR if pool == "str" else CALL_FRESH, "calls": cl,
                        "runs": runs, "limit": 10,
                        "fname": {cid: f for cid, _, f in sweep}, "directed": {d[0]: d for d in directed}})
     return groups
@@ -1112,12 +1131,17 @@ def call_trace_line(g, cid, outcome):
             else:
                 obs.append(int(x) if re.fullmatch(r"-?\d{1,9}", x) else -1)
         return {"prog": "@rng", "seed": how, "draws": [list(d) for d in RNG_DRAWS], "obs": obs, "elems": [], "n": 0}
+    if how == "trace3":
+        if kind != "err":
+            return None
+        t3 = sorted(b.elems)[1:4]
+        return {"prog": prog, "elems": t3, "obs": tokenize(b.tokens, text), "n": 0}
     if how == "sumtype" and b.rankable:
         m = re.search(r"Cannot sum (\w+)", text) if kind == "err" else None
-        if not m or m.group(1) not in SUM_TYPES:
+        if not m or SUM_TYPES.get(m.group(1)) not in b.tokens:
             return None                      # not an enumeration (today sum(S) is "List required but got set")
         # model: the numbers are the members up to 1, every other member is above; the error names the first of them
-        bad = sorted(b.tokens[r] for r in SUM_TYPES.values())
+        bad = sorted(b.tokens[r] for r in SUM_TYPES.values() if r in b.tokens)
         return {"prog": prog, "elems": [1] + [10 + e for e in bad], "obs": [10 + b.tokens[SUM_TYPES[m.group(1)]]], "n": 0}
     return None
 
@@ -1147,17 +1171,23 @@ def judge_calls(run, groups, results):
         by_key = {}
         for cid in sorted(varying):
             name = g["fname"].get(cid) or cid
+            outs = list(varying[cid][0][1])
+            if cid in g["fname"] and len({(o[0], o[2], o[1].split("\n")[0]) for o in outs}) == 1:
+                # value, printed text and error message agree; only the stack-trace lines (the arguments shown
+                # there) differ: one finding for all functions of the sweep, not one per function
+                name = "@stack-trace-lines"
             by_key.setdefault(name, []).append(cid)
         for name, cids in sorted(by_key.items()):
             cid = cids[0]
             legacy, distinct = varying[cid][0]
             ex = sorted(distinct.items(), key=lambda kv: (-len(kv[1]), kv[1]))
             x, y = ex[0], ex[1]
-            what = (f"varies: `{src_of.get(cid, cid)}` (pool {g['pool']}) {len(distinct)} different outcomes in "
+            what = (f"varies{' (stack-trace lines)' if name == '@stack-trace-lines' else ''}: "
+                    f"`{src_of.get(cid, cid)}` (pool {g['pool']}) {len(distinct)} different outcomes in "
                     f"{sum(len(w) for w in distinct.values())} processes{' (legacy)' if legacy else ''}: order={x[1][0][0]} "
                     f"PYTHONHASHSEED={x[1][0][1]} -> {_short_call(x[0])} but order={y[1][0][0]} PYTHONHASHSEED={y[1][0][1]} "
-                    f"-> {_short_call(y[0])}" + (f"; {len(cids) - 1} more calls of {name} vary" if len(cids) > 1 else ""))
-            case = {"kind": "call", "pool": g["pool"], "cid": cid, "src": src_of.get(cid, ""), "fresh": g["fresh"],
+                    f"-> {_short_call(y[0])}" + (f"; {len(cids) - 1} more calls ({name}) vary" if len(cids) > 1 else ""))
+            case = {"kind": "call", "pool": g["pool"], "cid": cid, "src": src_of.get(cid, ""), "fresh": g["fresh"], "elems": g["batch"].elems,
                     "prelude": g["prelude"], "directed": list(g["directed"].get(cid, ())),
                     "runs": [{"order": x[1][0][0], "seed": x[1][0][1], "legacy": legacy},
                              {"order": y[1][0][0], "seed": y[1][0][1], "legacy": legacy}]}
@@ -1195,6 +1225,7 @@ def report_bad_calls(run, bad_extra):
         what = (f"unsorted: `{src}` (pool {g['pool']}) observation {line['obs']} is not what the sorted enumeration gives "
                 f"{bd['want']} (program {line['prog']}): order={where[0][0]} PYTHONHASHSEED={where[0][1]} -> {_short_call(o)}")
         case = {"kind": "call", "pool": g["pool"], "cid": cid, "src": src, "fresh": g["fresh"], "prelude": g["prelude"],
+                "elems": g["batch"].elems,
                 "directed": list(g["directed"].get(cid, ())),
                 "runs": [{"order": where[0][0], "seed": where[0][1], "legacy": where[0][2]}]}
         run.violation(f"call:{g['pool']}:{cid}", what, case)
@@ -1210,7 +1241,7 @@ def run(run):
     reps = 1 if quick else 3           # repetitions with other element subsets
     # the three model runs that do not depend on the observations go on beside the interpreter processes
     tlc_pool = ThreadPoolExecutor(max_workers=6)
-    f_spec = tlc_pool.submit(run_tlc, "Order", "Order", coverage=True, timeout=1800, workers=8)
+    f_spec = tlc_pool.submit(run_tlc, "Order", "Order" if quick else "Order_thorough", coverage=True, timeout=1800, workers=8)
     f_raw = tlc_pool.submit(run_tlc, "Order", "Order_allraw", coverage=False, timeout=1800, workers=3)
     f_render = tlc_pool.submit(run_tlc, "Order", "Order_byrender", coverage=False, timeout=1800, workers=3)
     f_fold = tlc_pool.submit(run_tlc, "Order", "Order_byfold", coverage=False, timeout=1800, workers=3)
@@ -1265,6 +1296,13 @@ def run(run):
         table["native.set"] = "raw"
     if any(re.search(r"\bM\b", c) for c in sweep_str if not c.startswith("d:")):
         table["native.map"] = "raw"
+    # the stack-trace lines are observed through the call channel
+    for site, cids in (("trace.set", ("d:trace-set", "d:trace-set-long", "d:trace-nested", "d:trace-method")),
+                       ("trace.map", ("d:trace-map", "d:trace-nested", "d:trace-method"))):
+        if site in table:
+            table[site] = "raw" if any(c in sweep_str for c in cids) else "sorted"
+            if site in unobservable:
+                unobservable.remove(site)
     ties_leak_at = sorted(s for s in sites if table[s] == "sorted"
                           and any(tid in flagged for tid in direct_alike.get(s, [])))
     table["relation"] = "render" if ties_leak_at else "total"
@@ -1354,7 +1392,8 @@ def run(run):
     if predicted["plain"] or predicted["alike"]:
         run.sample({"model_counterexamples_for_observed_table":
                     (list(predicted["plain"].values()) + list(predicted["alike"].values()))[:4]})
-    covered = sorted({t.prog for t in ts if t.prog})
+    covered = sorted({t.prog for t in ts if t.prog} | {d[2] for g in cgroups for d in g["directed"].values()
+                                                        if d[2] and d[2] != "@rng"})
     run.cov["traces_validated_against_impl"] = ntrace
     run.cov["evaluations"] = sum(len(r) for r in obs.values()) + call_stats["evaluations"]
     run.cov["distinct_nontrivial"] = len({(tid, bid) for tid, bid, _ in obs}) + call_stats["calls"]
@@ -1397,7 +1436,32 @@ def run(run):
     ]
 
 
+def replay_call(run, case):
+    """a call of the call channel alone, under every recorded construction order and 8 hash seeds"""
+    seeds = sorted({r["seed"] for r in case["runs"]} | set(range(8)))
+    legacy = any(r["legacy"] for r in case["runs"])
+    pool = case["pool"]
+    if pool == "str":
+        tokens = {KEYW[r - 1]: r for r in case["elems"]}
+        tokens.update({VALW[val_of(r) - 101]: val_of(r) for r in case["elems"]})
+        b = Batch("replay", [], "str", case["elems"], [], tokens, True)
+    else:
+        b = make_batch("replay", [], pool, random.Random(0), 2)
+    directed = {case["cid"]: tuple(case["directed"])} if case.get("directed") else {}
+    g = {"gid": "replay", "pool": pool, "batch": b, "prelude": case["prelude"], "fresh": case["fresh"],
+         "calls": [(case["cid"], case["src"])],
+         "runs": [(on, sd, lg) for on in case["prelude"] for sd in seeds for lg in ([False, True] if legacy else [False])],
+         "limit": 10, "fname": {}, "directed": directed}
+    results, nproc = calls_mod.execute([g], 16)
+    flagged, extra, stats = judge_calls(run, [g], results)
+    bad = validate_traces(run, [ex[0] for ex in extra]) if extra else {}
+    report_bad_calls(run, [(extra[k], bd) for k, bd in sorted(bad.items())])
+    run.cov["evaluations"] = stats["evaluations"]
+
+
 def replay(run, case):
+    if case.get("kind") == "call":
+        return replay_call(run, case)
     t = T(case["tid"], case["body"], case.get("prog"), None, case.get("pool", "str"), case.get("parse", "tokens"))
     orders = [(o[0], list(o[1])) for o in case["orders"]]
     if t.pool == "str":
